@@ -114,13 +114,25 @@ def pairwise_table(func, enum_cls):
         if not ok:
             raise CannotAnalyse('not an element-wise zip over the two arguments')
         return tgt.elts[0].id, tgt.elts[1].id
+    # locals bound once, at the top level, to a value that does not depend on the elements (a tuple of members, a constant)
+    consts = {}
+    nstores = {}
+    for x_ in ast.walk(func.node):
+        if isinstance(x_, ast.Name) and isinstance(x_.ctx, ast.Store):
+            nstores[x_.id] = nstores.get(x_.id, 0) + 1
+    for s_ in body:
+        if isinstance(s_, ast.Assign) and len(s_.targets) == 1 and isinstance(s_.targets[0], ast.Name) and nstores.get(s_.targets[0].id) == 1:
+            try:
+                consts[s_.targets[0].id] = ev(s_.value, consts, enums)
+            except CannotAnalyse:
+                pass
     if isinstance(ret.value, ast.ListComp):
         g = ret.value.generators[0]
         if len(ret.value.generators) != 1 or g.ifs:
             raise CannotAnalyse('filtered / nested comprehension')
         x, y = zip_vars(g.iter, g.target)
         for m1, m2 in itertools.product(mem, mem):
-            table[(m1, m2)] = ev(ret.value.elt, {x: m1, y: m2}, enums)
+            table[(m1, m2)] = ev(ret.value.elt, dict(consts, **{x: m1, y: m2}), enums)
         return table
     loops = [s for s in body if isinstance(s, ast.For)]
     if len(loops) != 1 or not isinstance(ret.value, ast.Name):
@@ -142,7 +154,7 @@ def pairwise_table(func, enum_cls):
                 raise CannotAnalyse(f'statement {type(s).__name__} in the element loop')
         return out
     for m1, m2 in itertools.product(mem, mem):
-        r = run(loops[0].body, {x: m1, y: m2})
+        r = run(loops[0].body, dict(consts, **{x: m1, y: m2}))
         if len(r) != 1:
             raise CannotAnalyse(f'{len(r)} results appended for one pair')
         table[(m1, m2)] = r[0]
